@@ -789,26 +789,22 @@ func (server *SugarDB) randomKey(ctx context.Context) string {
 
 	database := ctx.Value("Database").(int)
 
-	_max := len(server.store[database])
-	if _max == 0 {
+	// A key whose deadline has passed no longer exists, whether or not it has been removed yet:
+	// it is not a candidate.
+	now := server.clock.Now()
+	keys := make([]string, 0, len(server.store[database]))
+	for key, entry := range server.store[database] {
+		if entry.ExpireAt != (time.Time{}) && entry.ExpireAt.Before(now) {
+			continue
+		}
+		keys = append(keys, key)
+	}
+
+	if len(keys) == 0 {
 		return ""
 	}
 
-	randnum := rand.Intn(_max)
-	i := 0
-	var randkey string
-
-	for key, _ := range server.store[database] {
-		if i == randnum {
-			randkey = key
-			break
-		} else {
-			i++
-		}
-
-	}
-
-	return randkey
+	return keys[rand.Intn(len(keys))]
 }
 
 func (server *SugarDB) getObjectFreq(ctx context.Context, key string) (int, error) {
